@@ -455,3 +455,19 @@ func init() {
 			Old: "isVerbatim := safeASCII || !jsonwire.NeedEscape(b[pos+len(`\"`):len(b)-len(`\"`)])", New: "isVerbatim := safeASCII || len(b) < pos+64", Rule: "MATRIX"},
 	)
 }
+
+func init() {
+	addMutants(
+		// ---- C03/C05/C18: STALE-2 (clients of the decoder)
+		Mutant{ID: "stale2-fallback-appends-name-after-read", Props: []string{"C03", "C05"}, File: "arshal_embedded.go", Func: "unmarshalEmbeddedFallbackNext",
+			Old: "\t\t*b = append(*b, quotedName...)\n\t\t*b = append(*b, ':')\n\t\tval, err := dec.ReadValue()\n\t\tif err != nil {\n\t\t\treturn err\n\t\t}\n",
+			New: "\t\tval, err := dec.ReadValue()\n\t\tif err != nil {\n\t\t\treturn err\n\t\t}\n\t\t*b = append(*b, quotedName...)\n\t\t*b = append(*b, ':')\n", Rule: "STALE-2"},
+		Mutant{ID: "stale2-fallback-name-string-after-unmarshal", Props: []string{"C03", "C05"}, File: "arshal_embedded.go", Func: "unmarshalEmbeddedFallbackNext",
+			Old: "\t\terr := unmarshal(dec, mv, uo)\n\t\tm.SetMapIndex(mk, mv.Value)\n", New: "\t\terr := unmarshal(dec, mv, uo)\n\t\tmk = reflect.ValueOf(string(unquotedName)).Convert(m.Type().Key())\n\t\tm.SetMapIndex(mk, mv.Value)\n", Rule: "STALE-2"},
+		Mutant{ID: "stale2-struct-dupcheck-after-skip", Props: []string{"C03", "C05"}, File: "arshal_default.go", Func: "makeStructArshaler",
+			Old: "\t\t\t\t\t\t\tif err := dec.SkipValue(); err != nil {\n\t\t\t\t\t\t\t\treturn err\n\t\t\t\t\t\t\t}\n\t\t\t\t\t\t} else {",
+			New: "\t\t\t\t\t\t\tif err := dec.SkipValue(); err != nil {\n\t\t\t\t\t\t\t\treturn err\n\t\t\t\t\t\t\t}\n\t\t\t\t\t\t\t_ = fields.byActualName[string(name)]\n\t\t\t\t\t\t} else {", Rule: "STALE-2"},
+		Mutant{ID: "stale2-v1-number-uses-val-after-peek", Props: []string{"C03", "C05"}, File: "v1/decode.go", Func: "Number.UnmarshalJSONFrom",
+			Old: "\tval, err := dec.ReadValue()\n\tif err != nil {\n\t\treturn err\n\t}\n", New: "\tval, err := dec.ReadValue()\n\tif err != nil {\n\t\treturn err\n\t}\n\tdec.PeekKind()\n", Rule: "STALE-2"},
+	)
+}
